@@ -110,21 +110,270 @@ def check_spec(spec, acc, shapes=fam.CALL_SHAPES):
         prog.close()
 
 
+# ---------------------------------------------------------------------------------------------------------------
+# second family: diamonds (the same inherited group reaches a class over two paths) and call histories over
+# mutable default arguments (the condition must see the very object the body sees)
+
+def diamond_specs(tier):
+    out = []
+    for is_async in (False, True):
+        for a in (0, 1):
+            for b in (None, 0, 1):
+                for c in (None, 0, 1):
+                    for d in (None, 0, 1):
+                        out.append({"fam": "diamond", "is_async": is_async, "opts": {"A": a, "B": b, "C": c, "D": d}})
+    return out
+
+
+DIAMOND_BASES = {"A": [], "B": ["A"], "C": ["A"], "D": ["B", "C"]}
+DIAMOND_MRO = {"A": ["A"], "B": ["B", "A"], "C": ["C", "A"], "D": ["D", "B", "C", "A"]}
+
+
+def render_diamond(spec):
+    L = ["import icontract", "T = {}", "LOG = []",
+         "def c(name):", "    LOG.append(('pre', name))", "    return T.get(name, True)", ""]
+    for cls in "ABCD":
+        bases = DIAMOND_BASES[cls] or ["icontract.DBC"]
+        L.append("class {}({}):".format(cls, ", ".join(bases)))
+        opt = spec["opts"][cls]
+        if opt is None:
+            L.append("    pass")
+        else:
+            if opt:
+                L.append("    @icontract.require(lambda self, x: c('{}'))".format(cls.lower()))
+            L.append("    {}def f(self, x):".format("async " if spec["is_async"] else ""))
+            L.append("        LOG.append(('body', '{}'))".format(cls))
+            L.append("        return x")
+        L.append("")
+    return "\n".join(L) + "\n"
+
+
+def diamond_groups(spec, cls):
+    """Reference: groups in effect for cls.f -- (groups, definition_error)."""
+    opts = spec["opts"]
+
+    def resolve(k):
+        for m in DIAMOND_MRO[k]:
+            if opts[m] is not None:
+                return m
+        return None
+
+    memo = {}
+
+    def groups_of_defining(k):
+        # k defines f
+        if k in memo:
+            return memo[k]
+        base_groups = []
+        bases_have = False
+        for b in DIAMOND_BASES[k]:
+            r = resolve(b)
+            if r is not None:
+                bases_have = True
+                g, err = groups_of_defining(r)
+                if err:
+                    memo[k] = ([], err)
+                    return memo[k]
+                base_groups += g
+        own = [[k.lower()]] if opts[k] else []
+        if not base_groups and bases_have and own:
+            memo[k] = ([], "TypeError")
+        else:
+            memo[k] = (base_groups + own, None)
+        return memo[k]
+
+    # definition errors surface while the classes are created in order A, B, C, D
+    for k in "ABCD":
+        if opts[k] is not None:
+            g, err = groups_of_defining(k)
+            if err:
+                return [], err
+    r = resolve(cls)
+    return groups_of_defining(r)[0], None
+
+
+def check_diamond(spec, acc):
+    src = render_diamond(spec)
+    key0 = json.dumps(spec, sort_keys=True)
+    f0 = {"fam": "diamond", "is_async": spec["is_async"], "opts": "".join(str(spec["opts"][k]) for k in "ABCD")}
+    _, def_err = diamond_groups(spec, "D")
+    try:
+        ns = core.load_source(src, "c01d")
+    except Exception as e:
+        acc.case(("def", key0), True, 1, "def_error")
+        if def_err != type(e).__name__:
+            acc.violation(core.Violation(PROP, "unexpected_definition_error", f0, "definition raised {!r}".format(e),
+                                         spec={"spec": spec}, script=src))
+        return
+    try:
+        if def_err:
+            acc.case(("def", key0), True, 1, "def_error")
+            acc.violation(core.Violation(PROP, "missing_definition_error", f0, "expected {} at definition".format(def_err),
+                                         spec={"spec": spec}, script=src))
+            return
+        for cls in "BCD":
+            groups, _ = diamond_groups(spec, cls)
+            names = sorted({n for g in groups for n in g})
+            for truth in fam.truth_tables(names):
+                dnf = (not groups) or any(all(truth[n] for n in g) for g in groups)
+
+                def go():
+                    ns["T"].clear()
+                    ns["T"].update(truth)
+                    del ns["LOG"][:]
+                    obj = ns[cls]()
+                    try:
+                        r = obj.f(7)
+                        if spec["is_async"]:
+                            r = core.run_coro(r)
+                        return ("ret", r)
+                    except icontract.ViolationError as e:
+                        return ("viol", str(e).splitlines()[0] if str(e) else "")
+                    except BaseException as e:
+                        return ("exc", type(e).__name__)
+                import icontract
+                outcome = core.fresh_ctx_run(go)
+                log = list(ns["LOG"])
+                acc.case((key0, cls, tuple(sorted(truth.items()))), bool(names), len(log), (dnf, outcome[0]))
+                body = any(ev[0] == "body" for ev in log)
+                sym = None
+                if dnf and (not body or outcome != ("ret", 7)):
+                    sym = "body_not_entered_although_pre_holds"
+                elif not dnf and body:
+                    sym = "body_entered_despite_violation"
+                elif not dnf and outcome[0] != "viol":
+                    sym = "wrong_error"
+                if sym:
+                    f = dict(f0); f["cls"] = cls
+                    acc.violation(core.Violation(PROP, sym, f, "class {} groups={} truth={} dnf={} outcome={} log={}".format(
+                        cls, groups, truth, dnf, outcome, log), spec={"spec": spec, "cls": cls, "truth": truth}, script=src))
+        acc.sample({"spec": spec}, cap=2)
+    finally:
+        core.unload_source(ns)
+
+
+DEF_KINDS = ["func", "afunc", "method", "static", "classm", "kwonly", "init_then_method"]
+
+
+def defaults_specs(tier):
+    out = []
+    for kind in DEF_KINDS:
+        for cap in (1, 2):
+            for holder in ("list", "dict"):
+                for hist in itertools.product("dp", repeat=3 if tier == "quick" else 4):   # d = use the default, p = pass an own object
+                    out.append({"fam": "defaults", "kind": kind, "cap": cap, "holder": holder, "hist": "".join(hist)})
+    return out
+
+
+def render_defaults(spec):
+    kind, cap, holder = spec["kind"], spec["cap"], spec["holder"]
+    empty = "[]" if holder == "list" else "{}"
+    add = "acc.append(x)" if holder == "list" else "acc[len(acc)] = x"
+    cond = "lambda acc: (LOG.append(('pre', id(acc))) or True) and len(acc) < {}".format(cap)
+    L = ["import icontract", "LOG = []", "DEFAULT = {}".format(empty), ""]
+    body = ["LOG.append(('body', id(acc)))", add, "return len(acc)"]
+    if kind in ("func", "afunc", "kwonly"):
+        sig = "x, acc=DEFAULT" if kind != "kwonly" else "x, *, acc=DEFAULT"
+        L += ["@icontract.require({})".format(cond), "{}def f({}):".format("async " if kind == "afunc" else "", sig)]
+        L += ["    " + b for b in body]
+        L += ["call = f"]
+    else:
+        L += ["class K:"]
+        dec = {"method": None, "static": "@staticmethod", "classm": "@classmethod", "init_then_method": None}[kind]
+        first = {"method": "self, ", "static": "", "classm": "cls, ", "init_then_method": "self, "}[kind]
+        if kind == "init_then_method":
+            L += ["    def __init__(self, acc=DEFAULT):", "        self.acc = acc"]
+        if dec:
+            L.append("    " + dec)
+        L += ["    @icontract.require({})".format(cond), "    def f({}x, acc=DEFAULT):".format(first)]
+        L += ["        " + b for b in body]
+        L += ["call = K().f" if kind != "classm" and kind != "static" else "call = K.f"]
+    return "\n".join(L) + "\n"
+
+
+def check_defaults(spec, acc):
+    import icontract
+    src = render_defaults(spec)
+    key0 = json.dumps(spec, sort_keys=True)
+    ns = core.load_source(src, "c01m")
+    try:
+        default = ns["DEFAULT"]
+        model_default = 0
+        f0 = {"fam": "defaults", "kind": spec["kind"], "cap": spec["cap"], "holder": spec["holder"]}
+        for i, h in enumerate(spec["hist"]):
+            own = [] if spec["holder"] == "list" else {}
+            target = default if h == "d" else own
+            size = model_default if h == "d" else 0
+            holds = size < spec["cap"]
+
+            def go():
+                del ns["LOG"][:]
+                try:
+                    r = ns["call"](i) if h == "d" else ns["call"](i, acc=own)
+                    if spec["kind"] == "afunc":
+                        r = core.run_coro(r)
+                    return ("ret", r)
+                except icontract.ViolationError:
+                    return ("viol",)
+                except BaseException as e:
+                    return ("exc", type(e).__name__)
+            outcome = core.fresh_ctx_run(go)
+            log = list(ns["LOG"])
+            acc.case((key0, i), True, len(log), (holds, outcome[0]))
+            body = any(ev[0] == "body" for ev in log)
+            sym = None
+            if holds and (not body or outcome != ("ret", size + 1)):
+                sym = "body_not_entered_although_pre_holds"
+            elif not holds and body:
+                sym = "body_entered_despite_violation"
+            elif not holds and outcome[0] != "viol":
+                sym = "wrong_error"
+            elif any(ev[1] != id(target) for ev in log):
+                sym = "condition_saw_other_object"
+            if sym:
+                f = dict(f0); f["step"] = i; f["hist"] = spec["hist"]
+                acc.violation(core.Violation(
+                    PROP, sym, f, "history {} step {} ({}): the argument holds {} element(s), capacity {}: the precondition {} but "
+                    "outcome={} log={} (id(default)={}, id(target)={})".format(
+                        spec["hist"], i, "default" if h == "d" else "own object", size, spec["cap"],
+                        "holds" if holds else "is violated", outcome, log, id(default), id(target)),
+                    spec={"spec": spec}, script=src))
+                return
+            if holds and h == "d":
+                model_default += 1
+        acc.sample({"spec": spec}, cap=2)
+    finally:
+        core.unload_source(ns)
+
+
+def check_any(spec, acc):
+    if spec.get("fam") == "diamond":
+        check_diamond(spec, acc)
+    elif spec.get("fam") == "defaults":
+        check_defaults(spec, acc)
+    else:
+        check_spec(spec, acc)
+
+
 def work(chunk):
     acc = core.Acc()
     for spec in chunk:
-        check_spec(spec, acc)
+        check_any(spec, acc)
     return acc.result()
 
 
 def run(tier, t0):
-    sp = core.rotate(specs(tier))
+    sp = core.rotate(specs(tier) + diamond_specs(tier) + defaults_specs(tier))
     tot = core.merge(core.pmap(work, sp))
     return core.finish(
         PROP, tier, tot, t0,
         rule="every program of family F (callable kind x sync/async x plain/DBC x inherited groups x own stack of "
              "0..n preconditions x +-post/snapshot/invariant x condition style x error form) x every truth assignment "
-             "x every call shape; a case is one (program, assignment, shape); non-trivial = at least one precondition in effect",
+             "x every call shape; plus every diamond A<-B,C<-D with each class (not defining | defining bare | defining with a "
+             "precondition) x sync/async x every truth assignment on B, C and D instances (reference: OR over the groups collected "
+             "along the bases); plus every call history of length 3 (thorough: 4) over {use the mutable default, pass an own object} for "
+             "callables whose body fills the default and whose precondition bounds its size (condition must see the body's object); "
+             "a case is one (program, assignment, shape) or one history step; non-trivial = at least one precondition in effect",
         assumptions=["conditions are side-effect free apart from logging", "CPython 3.12 /venv"],
         bounds={"programs": len(sp), "max_own_preconditions": 3,
                 "max_inherited_groups": 1 if tier == "quick" else 2},
@@ -134,7 +383,10 @@ def run(tier, t0):
 def replay(path):
     data = json.load(open(path))
     acc = core.Acc()
-    check_spec(data["spec"]["spec"], acc)
+    if data["spec"]["spec"].get("fam"):
+        check_any(data["spec"]["spec"], acc)
+    else:
+        check_spec(data["spec"]["spec"], acc)
     for v in acc.violations:
         print("VIOLATION property={} replay={}".format(PROP, path))
         print(" ", v.symptom, v.detail[:400])
